@@ -654,13 +654,22 @@ def resave_scenarios(ctx, out):
             hist = []
 
             def edit():
-                k = rng.choice(['add', 'add', 'front', 'front', 'remove', 'move', 'link', 'link', 'slot', 'root-front'])
+                k = rng.choice(['add', 'add', 'front', 'front', 'neg', 'neg', 'remove', 'move', 'link', 'link', 'slot', 'root-front'])
                 live = [o for r in res.contents for o in [r] + list(r.eAllContents())]
                 p = rng.choice(live)
                 if k == 'add':
                     p.kids.append(new())
                 elif k == 'front':
                     p.kids.insert(0, new())
+                elif k == 'neg':
+                    # a NEGATIVE position (counted from the end, clamped like list.insert)
+                    p.kids.insert(-rng.randrange(1, len(p.kids) + 3), new())
+                    if len(p.kids) > 1 and rng.random() < 0.7:
+                        # ... and somebody refers to a sibling (written as a position in p.kids)
+                        t = rng.choice(list(p.kids))
+                        rng.choice(live).fav = t
+                        if t not in p.featured:
+                            p.featured.append(t)
                 elif k == 'remove' and len(p.kids):
                     victim = rng.choice(list(p.kids))
                     gone = [victim] + list(victim.eAllContents())
